@@ -7,12 +7,16 @@
    column of the position, complete mark, pinned, first character at the
    position when that lies inside the text); that each of the producers of a
    mark (scanner, expander helper) records a diagnostic in the same step; that
-   plain text gives neither.  Not proved: that each detection site of the
+   plain text gives neither; and "only then", end to end for the document
+   class of C02 (C08_documents_of_the_class_no_mark): a source text accepted
+   by `doc_in_class` runs through `parser_work` without any diagnostic being
+   recorded -- nothing of the parser state changes but the list of unknowns.
+   Not proved: that each detection site of the
    expander passes the position of the faulty construct (the sites are
    compared with the implementation by the correspondence run on the
    C08 stream, diagnostics and marks included). *)
 From YV Require Import PyBase ShellMap ShellMapProofs Token Utils Scanner PState Parser
-                       LatexErrorProofs ScanPlain ExecPlain Catalogue.
+                       LatexErrorProofs ScanPlain ExecPlain Exec ExecArgs ClassDecide Catalogue.
 Open Scope Z_scope.
 
 (* (1) the diagnostic carries line and column of p (text_loc is specified by
@@ -58,6 +62,15 @@ Theorem C08_plain_text_no_diagnostic : forall P latex okc,
   plainb P okc latex = true -> snd (scan P latex) = [].
 Proof. exact (fun P latex okc H => proj2 (proj2 (scan_plain P latex okc H))). Qed.
 Print Assumptions C08_plain_text_no_diagnostic.
+
+Theorem C08_documents_of_the_class_no_mark : forall rd fuel st latex r,
+  doc_in_class py_tables st latex = true ->
+  parser_work py_tables (exec py_tables rd fuel) st latex = Ok r ->
+  frame st (fst r) /\ diags (fst r) = diags st.
+Proof.
+  exact (fun rd => parser_work_class_frame py_tables rd (eq_refl true)).
+Qed.
+Print Assumptions C08_documents_of_the_class_no_mark.
 
 Example C08_nonvacuous :
   let r := latex_error (sp_mark (t_scan py_tables)) false [120]%N 2 [97; 10; 98; 99; 100; 101; 102; 103; 104; 105; 106; 107; 108; 109; 110; 111; 112; 113]%N in
